@@ -271,6 +271,10 @@ def run(ctx, load):
     ctx.stats['configs'] = ['default']
     check_headers(P, ctx)
     check_pointer_arith(P, ctx)
+    from .rules_c04 import check_seq_layout
+    check_seq_layout(P, ctx, rule='C19.pointer-arithmetic')
+    ctx.floors.pop(('C19.pointer-arithmetic', ctx.config), None)
+    ctx.floor('C19.pointer-arithmetic', 13)
     check_typed_results(P, ctx)
     # guards: String and Tuple buffers, dealloc
     Ppos = load(['src/Exception.c'], 'default', ['/verif/witness/positive/c19_dealloc.c'])
